@@ -458,7 +458,34 @@ func collectFacts(dir string) (*factSet, error) {
 	fs.signature("Program.Run")
 	fs.bufSize()
 	fs.lockDiscipline()
+	fs.sendCalls()
 	return fs, nil
+}
+
+// sendCalls: every call of p.Send in the package (who forwards what into the message channel,
+// and whether from a goroutine). The pipeline model assumes that EVERY message a command,
+// sequence element, signal or helper produces is forwarded with Send, i.e. passes the event
+// loop (and so the filter) like any other message.
+func (fs *factSet) sendCalls() {
+	for name, fd := range fs.funcs {
+		var walk func(n ast.Node, inGo bool)
+		walk = func(n ast.Node, inGo bool) {
+			ast.Inspect(n, func(x ast.Node) bool {
+				switch v := x.(type) {
+				case *ast.GoStmt:
+					walk(v.Call, true)
+					return false
+				case *ast.CallExpr:
+					if fs.text(v.Fun) == "p.Send" && len(v.Args) == 1 {
+						fs.add("sendcalls", fmt.Sprintf("%s|%s|go=%t", name, fs.text(v.Args[0]), inGo))
+					}
+				}
+				return true
+			})
+		}
+		walk(fd.Body, false)
+	}
+	sort.Strings(fs.lists["sendcalls"])
 }
 
 // lockDiscipline: for every method of standardRenderer, in source order, the
@@ -506,7 +533,9 @@ func factDefName(k string) string {
 	return "fact_" + r.Replace(k)
 }
 
-func genFacts() []byte { return genFactsNS("Tea.Gen", "-- GENERATED by `harness gen` (go/ast fact extractor) from /repo's working tree. Do not edit.\n") }
+func genFacts() []byte {
+	return genFactsNS("Tea.Gen", "-- GENERATED by `harness gen` (go/ast fact extractor) from /repo's working tree. Do not edit.\n")
+}
 
 func genFactsNS(ns, header string) []byte {
 	fs, err := collectFacts(repoDir())
